@@ -32,6 +32,7 @@ class C07(WigBedProp):
                 # manual lists a user may pass: unsorted, duplicates, a zero, more than ten sizes
                 o["zooms"] = r.choice(["40,10", "10,10", "0", "0,8", "20,5,80", "2,3,4,5,6,7,8,9,10,11,12,13", "16,16,64"])
                 tags.add("odd_manual_zoom_list")
+            names = bbgen.free_chrom_order(r, names, o, tags, 1, 6)
             if self.bed:
                 lines = [bbgen.opt_line(o)] + bbgen.bed_lines(names, sizes, data)
             else:
